@@ -222,3 +222,101 @@ func zzH_C02_params_lookup_prune(t *zzT) {
 //
 //zz:opt loop=24
 func zzH_C06_next_params_height(t *zzT) { zzH_C02_params_lookup_prune(t) }
+
+// zz02Branch runs the real per-block entry points of the BFT module (BeforeTransactionsExecute, then the
+// application's SetBFTParameters after the first block) over nb headers generated round-robin by two
+// validators on top of the state staged in d; w / pre are the weights and the precommit (= certificate)
+// threshold the first block of the branch sets for the heights above it.
+func zz02Branch(t *zzT, m *Module, d *diffdb.Database, nb int, w [2]uint64, pre uint64, idTag byte) bool {
+	mhp, _, _, err := m.API().GetBFTHeights(d)
+	if err != nil {
+		return false
+	}
+	lastBy := [2]uint32{0, 0}
+	for i := 0; i < nb; i++ {
+		g := i % 2
+		h := uint32(1 + i)
+		hdr := &blockchain.BlockHeader{Version: 2, Height: h, GeneratorAddress: []byte{0xa0, byte(g)}, MaxHeightGenerated: lastBy[g],
+			MaxHeightPrevoted: mhp, AggregateCommit: &blockchain.AggregateCommit{}, ID: []byte{idTag, byte(h)}}
+		if err := m.BeforeTransactionsExecute(hdr.Readonly(), d); err != nil {
+			return false
+		}
+		lastBy[g] = h
+		if i == 0 {
+			vals := BFTValidators{{address: []byte{0xa0, 0}, bftWeight: w[0], blsKey: []byte{1}}, {address: []byte{0xa0, 1}, bftWeight: w[1], blsKey: []byte{2}}}
+			if err := m.API().SetBFTParameters(d, pre, pre, vals); err != nil {
+				return false
+			}
+		}
+		mhp, _, _, err = m.API().GetBFTHeights(d)
+		if err != nil {
+			return false
+		}
+	}
+	return true
+}
+
+// C02 "a function of the header sequence alone": a node that processed a branch A (whose first block
+// changed the BFT weights / thresholds for the heights above it), removed those blocks again (the state
+// store is back at the common ancestor) and then processed the competing branch B reports exactly the BFT
+// heights and stores exactly the vote state of a fresh node that processed only B. Weights and thresholds
+// of both branches are symbolic. (seed C02-5 kept the decoded parameters of the vote window in the
+// Module across blocks; block removal reverts the store but not that cache.)
+//
+//zz:opt loop=24 timeout=60000 merge=~/pkg/collection/ints.Max[uint32],~/pkg/collection/ints.Min[uint32],~/pkg/collection/ints.Min[int]
+//zz:quick NA=2 NB=2 symA=0 budget=300s
+//zz:thorough NA=2 NB=3 symA=1 budget=40m
+func zzH_C02_branch_switch_deterministic(t *zzT) {
+	mk := func() (*Module, *diffdb.Database) {
+		m := NewModule()
+		m.Init(4)
+		d := diffdb.New(&zzMemStore{}, []byte{})
+		g := &blockchain.BlockHeader{Version: 0, Height: 0, AggregateCommit: &blockchain.AggregateCommit{}, ID: []byte{0}}
+		if err := m.InitGenesisState(g.Readonly(), d); err != nil {
+			t.Fail("genesis state")
+		}
+		vals := BFTValidators{{address: []byte{0xa0, 0}, bftWeight: 1, blsKey: []byte{1}}, {address: []byte{0xa0, 1}, bftWeight: 1, blsKey: []byte{2}}}
+		if err := m.API().SetBFTParameters(d, 2, 2, vals); err != nil {
+			t.Fail("genesis parameters")
+		}
+		return m, d
+	}
+	var wA, wB [2]uint64
+	// branch A: concrete parameters in the quick tier (5:1, threshold 4), symbolic in the thorough tier
+	wA, preA := [2]uint64{5, 1}, uint64(4)
+	for i := 0; i < 2; i++ {
+		if t.Param("symA", 0) == 1 {
+			wA[i] = uint64(t.U16(t.Name("wA", i)))
+		}
+		wB[i] = uint64(t.U16(t.Name("wB", i)))
+	}
+	if t.Param("symA", 0) == 1 {
+		preA = uint64(t.U32("preA"))
+	}
+	preB := uint64(t.U32("preB"))
+	m1, d1 := mk()
+	snap := d1.Snapshot()
+	okA := zz02Branch(t, m1, d1, t.Param("NA", 2), wA, preA, 0xa)
+	t.Assume(okA)
+	if err := d1.RestoreSnapshot(snap); err != nil {
+		t.Fail("restore")
+	}
+	okB1 := zz02Branch(t, m1, d1, t.Param("NB", 3), wB, preB, 0xb)
+	m2, d2 := mk()
+	okB2 := zz02Branch(t, m2, d2, t.Param("NB", 3), wB, preB, 0xb)
+	t.Assert(okB1 == okB2, "branch B is accepted by the switching node iff a fresh node accepts it")
+	if !okB1 || !okB2 {
+		t.Reach("refused")
+		return
+	}
+	p1, c1, f1, _ := m1.API().GetBFTHeights(d1)
+	p2, c2, f2, _ := m2.API().GetBFTHeights(d2)
+	t.ObserveU64("prevoted", uint64(p2))
+	t.ObserveU64("precommitted", uint64(c2))
+	t.Assert(p1 == p2 && c1 == c2 && f1 == f2, "BFT heights after a branch switch equal those of a node that only saw the final chain")
+	key := append(dbPrefix(storePrefixBFTVotes), emptyKey...)
+	v1, ok1 := d1.Get(key)
+	v2, ok2 := d2.Get(key)
+	t.Assert(ok1 && ok2 && bytes.Equal(v1, v2), "stored vote state after a branch switch equals that of a node that only saw the final chain")
+	t.Reach("end")
+}
